@@ -11,6 +11,9 @@ pub enum Op {
     Edit(u8),
     Close(u8),
     Save(u8),
+    /// workspace/didChangeConfiguration: a workspace reload task is spawned and runs concurrently with what follows
+    #[serde(alias = "Reload")]
+    Reload,
     Advance(u16),
 }
 
@@ -31,6 +34,7 @@ fn op_strategy() -> impl Strategy<Value = Op> {
         6 => (0..NDOCS).prop_map(Op::Edit),
         2 => (0..NDOCS).prop_map(Op::Close),
         1 => (0..NDOCS).prop_map(Op::Save),
+        1 => Just(Op::Reload),
         1 => (0u16..1200).prop_map(Op::Advance),
     ]
 }
@@ -42,7 +46,7 @@ impl Property for C27 {
         "C27"
     }
     fn rule(&self) -> String {
-        "cases = protocol-respecting notification sequences (2-25 of didOpen/didChange/didClose/didSave + virtual-time gaps) over 3 documents (2 not on disk, 1 on disk) played through the real notification dispatcher in-process, x a schedule vector consumed by the scheduling points at spawned-task starts and lock acquisitions (empty vector = natural FIFO schedule) x push/pull client; oracle = last-writer-wins in message order: after quiescence an open document's analysis text and the workspace manager's open-file text equal the text of its last open/change, a document closed last is not in the open-file table and (if not on disk) not in the analysis; non-trivial = an open immediately followed by a change of the same document, or a close/reopen pair".into()
+        "cases = protocol-respecting notification sequences (2-25 of didOpen/didChange/didClose/didSave, workspace reloads triggered by didChangeConfiguration, virtual-time gaps) over 3 documents (2 not on disk, 1 on disk) played through the real notification dispatcher in-process, x a schedule vector consumed by the scheduling points at spawned-task starts and lock acquisitions (empty vector = natural FIFO schedule) x push/pull client; oracle = last-writer-wins in message order: after quiescence an open document's analysis text and the workspace manager's open-file text equal the text of its last open/change, a document closed last is not in the open-file table and (if not on disk) not in the analysis; non-trivial = an open immediately followed by a change of the same document, or a close/reopen pair".into()
     }
     fn assumptions(&self) -> Vec<String> {
         vec!["interleavings explored at await granularity on one thread; schedule vectors are sampled, not enumerated".into()]
@@ -121,6 +125,10 @@ impl Property for C27 {
                         ls.notify("textDocument/didSave", serde_json::json!({"textDocument": {"uri": uris[d]}}));
                         prev = None;
                     }
+                }
+                Op::Reload => {
+                    ls.notify("workspace/didChangeConfiguration", serde_json::json!({"settings": {"n": i}}));
+                    obs.class("reload-in-flight");
                 }
                 Op::Advance(ms) => {
                     ls.advance(*ms as u64);
